@@ -193,7 +193,8 @@ O2O_OPS = [('person.passport', 1, 2), ('person.passport', 1, 3), ('person.passpo
 
 
 def o2o_configs(tier):
-    return [dict(cascade=c, op=repr(op), preload=pl, then=t) for c in (False, True) for op in O2O_OPS for pl in (True, False) for t in (None,) + tuple(repr(o) for o in O2O_OPS[:4])]
+    return [dict(cascade=c, op=repr(op), preload=pl, then=t, via=v) for c in (False, True) for op in O2O_OPS for pl in (True, False) for t in (None,) + tuple(repr(o) for o in O2O_OPS[:4])
+            for v in ('assignment', 'set()')]          # obj.attr = x and the bulk form obj.set(attr=x) take different paths to the value that is replaced
 
 
 def _o2o_work(cfg):
@@ -214,7 +215,8 @@ def _o2o_work(cfg):
             for kind, a, b in ops:
                 if kind == 'person.passport':
                     if b is not None and b not in passports: continue                              # the passport was deleted by a cascade: the step is meaningless
-                    M.Person[a].passport = None if b is None else M.Passport[b]
+                    if cfg['via'] == 'set()': M.Person[a].set(passport=None if b is None else M.Passport[b])
+                    else: M.Person[a].passport = None if b is None else M.Passport[b]
                     old = link[a]
                     if old != b:
                         if b is not None:
@@ -224,7 +226,8 @@ def _o2o_work(cfg):
                         if old is not None and cfg['cascade']: passports.discard(old)               # the passport that was replaced is deleted with cascade_delete (when assigned from this side)
                 else:
                     if a not in passports: continue
-                    M.Passport[a].person = None if b is None else M.Person[b]
+                    if cfg['via'] == 'set()': M.Passport[a].set(person=None if b is None else M.Person[b])
+                    else: M.Passport[a].person = None if b is None else M.Person[b]
                     for q in link:
                         if link[q] == a: link[q] = None
                     if b is not None:
